@@ -15,7 +15,7 @@ def load_pool(kind):
     return json.load(open(p))["good"]
 
 
-def run(prop, tier, seed, plan, assumptions, rule, mc=None, nontrivial_key="statements", level="model_checking", extra=None):
+def run(prop, tier, seed, plan, assumptions, rule, mc=None, nontrivial_key="statements", level="model_checking", extra=None, post=None):
     """plan: list of (kind, quick_segments, thorough_segments)"""
     c = Check(prop, tier, seed, level)
     wd = vlib.workdir(prop.lower())
@@ -36,6 +36,8 @@ def run(prop, tier, seed, plan, assumptions, rule, mc=None, nontrivial_key="stat
             done += m
             k += 1
         c.cov.setdefault("seed_pool", {})[kind] = {"vetted_seeds": len(pool), "batches": k}
+    if post and not c.violations:
+        post(c, wd, tier, seed)
     vlib.report_known(c, prop)
     if any(k.startswith("crash") for k, _, _ in plan):
         crash_witness(c, wd, prop)
